@@ -252,13 +252,18 @@ class AsyncIOClient(ABC):
         reading (e.g., connection lost), it will trigger a reconnection attempt.
         """
         self.logger.info("Received loop started")
+        writer = self.writer  # the link this loop reads from
         try:
             while self._state != State.CLOSED:
                 await self._receive_impl()
                 # frames that are already buffered are read without suspending: give other tasks a turn
                 await asyncio.sleep(0)
         except Exception as ex:
-            if self._state != State.CLOSED:
+            if self._state != State.CLOSED and writer is not self.writer:
+                # a failing send gave this loop's link up first and connect() has replaced it already: the end of
+                # the old stream says nothing about the current link, which must not be shut for it
+                self.logger.info(f"Reading from a replaced link ended. Error: {ex}")
+            elif self._state != State.CLOSED:
                 self.logger.error(f"Connection lost while reading. Error: {ex}. Reconnecting...", exc_info=True)
                 self._shut_link()
                 await self._update_state(State.DISCONNECTED)
